@@ -508,7 +508,13 @@ func checkC04(r *harness.Run) harness.Coverage {
 				if want {
 					kind, exp = "rejected-grammatical", "Compile succeeds: the text lexes into the sentence "+spellKinds(toks)
 				}
-				r.Report(harness.Violation{Kind: kind, Signature: fmt.Sprintf("byte-level:%s:%q", kind, text),
+				sig := fmt.Sprintf("byte-level:%s:%q", kind, text)
+				if !want && lerr == nil {
+					if c := c04Cause(toks, c04AcceptedUngrammatical); c != "" {
+						sig = c + ":" + spellKinds(toks) // the recorded known finding, met at byte level
+					}
+				}
+				r.Report(harness.Violation{Kind: kind, Signature: sig,
 					Input: map[string]interface{}{"expression": text, "expression_quoted": fmt.Sprintf("%q", text)}, Expected: exp, Observed: fmt.Sprintf("Compile error = %v", err)})
 			}
 		})
